@@ -54,7 +54,8 @@ def read_view(x, v):
         return sorted((idx[i], cols[j]) for i, j in zip(*np.nonzero(vals)))
     if v == 'simple':
         s = x.simple
-        return sorted((int(a), int(b)) for a, b in zip(s.nodes.node_id.values, s.nodes.parent_id.values))
+        return sorted((int(a), int(b), round(float(cx), 9), round(float(cy), 9), round(float(cz), 9)) for a, b, cx, cy, cz in
+                      zip(s.nodes.node_id.values, s.nodes.parent_id.values, s.nodes.x.values, s.nodes.y.values, s.nodes.z.values))
     if v == 'subtrees':
         return sorted(tuple(sorted(int(i) for i in c)) for c in x.subtrees)
     if v == 'root':
@@ -190,8 +191,9 @@ def run(ctx):
                     dirty = True
                     after_direct = True
                 # ---- read one random view first, then two more, compare with a fresh neuron
-                pool = VIEWS + ([] if after_direct else TYPED)
-                order = [pool[int(i)] for i in rng.choice(len(pool), size=3, replace=False)]
+                # after a navis operation the root / leaf / branch sets are read FIRST (reading a cached view re-classifies the nodes
+                # and would repair a wrong `type` column before it is looked at), then three random views
+                order = ([] if after_direct else list(TYPED)) + [VIEWS[int(i)] for i in rng.choice(len(VIEWS), size=3, replace=False)]
                 st, fr = guarded(fresh, x)
                 if st != 'ok':
                     ctx.violation('cannot construct a fresh neuron from the current table', dict(start=f, backend=be, history=hist), fr)
